@@ -200,7 +200,12 @@ def handle (op : String) (args : List PyVal) : Option (List PyVal) :=
   | "tables", [] =>
     some [encStrs Gen.Persist.columnFields, encStrs Gen.Persist.schemaFields, pairs Gen.Persist.flatKwargs,
           pairs Gen.Persist.fromDictRestores, pairs Gen.Persist.dispositions,
-          .bool Gen.Persist.toDictAsdict, .bool Gen.Persist.toJsonAsdict]
+          .bool Gen.Persist.toDictAsdict, .bool Gen.Persist.toJsonAsdict,
+          .list (Gen.Persist.fromDictRules.map fun r =>
+            .list [.list (r.1.map fun c => .list [.str c.1, .str c.2.1, .str c.2.2]), .str r.2.1, .str r.2.2]),
+          .list (Gen.Persist.initFills.map fun f => .list [.str f.1, .str f.2.1, .str f.2.2]),
+          pairs Gen.Persist.decimalFills, .str Gen.Persist.enumWrittenAs, .str Gen.Persist.columnLoader,
+          .str Gen.Persist.jsonLoader]
   | _, _ => none
 
 end Drv.C16
